@@ -23,7 +23,7 @@ from dv import c09_alpha
 from dv.core import cz, cbool, clist, copt
 
 HEADER = ("From DV Require Import Model.PyPrims Model.C09AlphaTypes Model.C09Alphabets Model.C09Model "
-          "Model.C09Nexus Model.C09Cases.\n"
+          "Model.C09Nexus Model.C09Dataset Model.C09Cases.\n"
           "From Coq Require Import ZArith List. Import ListNotations. Open Scope Z_scope.")
 
 DISCRETE = ["dna", "rna", "nucleotide", "protein", "standard", "restriction", "infinite"]
@@ -322,6 +322,8 @@ def observe(case):
 
 def _observe(case):
     kind = case["kind"]
+    if kind == "dsread":
+        return observe_dsread(case)
     dt = case["dt"]
     if kind == "write":
         try:
@@ -414,7 +416,30 @@ def c_pr(rkw):
 TRIVIAL = "(FastaWrite alpha_dna true 70 [] [])"     # a case the harness could not express (counted)
 
 
+def nexus_link_of(tokens):
+    link = None
+    tk = [t for t in tokens if t not in ("\n", "\r")]
+    up = [t.upper() for t in tk]
+    if "LINK" in up:
+        i = up.index("LINK") + 1
+        while i + 2 < len(tk) and tk[i] != ";":
+            if up[i] == "TAXA" and tk[i + 1] == "=":
+                link = tk[i + 2]
+            i += 1
+    return link
+
+
 def to_coq(case, obs):
+    if case["kind"] == "dsread":
+        p = obs["parsed"]
+        if isinstance(p, dict):
+            return TRIVIAL        # the document as a whole is not readable: judged by the data-set pipeline oracle
+        link = nexus_link_of(obs["tokens"])
+        tab = clist(["(%s, %s)" % (copt(t, ctext), clist([ctext(l) for l in labs])) for t, labs in obs["tab"]])
+        labs = label_variants([l for _t, ls in obs["tab"] for l in ls])
+        cobs = clist(["(mkNO %s %s %s [] %s %s)" % (DT_COQ[b["dt"]], cmatrix(b["rows"]), clist([ctext(l) for l in b["ns"]]),
+                                                    copt(b["title"], ctext), copt(link, ctext)) for b in p])
+        return "(NexusReadIn %s %s (nx_init [] %s false) %s (Ok %s))" % (lowtab(labs), tab, copt(obs["ntax0"], cz), ctoks(obs["tokens"]), cobs)
     kind, dt, fmt = case["kind"], case["dt"], case["fmt"]
     if kind == "write":
         if "route_err" in obs:
@@ -453,11 +478,21 @@ def to_coq(case, obs):
             st = "(nx_init %s %s %s)" % (clist([ctext(l) for l in obs["ns0"]]), copt(obs["ntax0"], cz),
                                          cbool(case.get("rkw", {}).get("case_sensitive_taxon_labels", False)))
 
+            link = None
+            tk = [t for t in obs["tokens"] if t not in ("\n", "\r")]
+            up = [t.upper() for t in tk]
+            if "LINK" in up:
+                i = up.index("LINK") + 1
+                while i + 2 < len(tk) and tk[i] != ";":
+                    if up[i] == "TAXA" and tk[i + 1] == "=":
+                        link = tk[i + 2]
+                    i += 1
+
             def cobs(x):
-                return clist(["(mkNO %s %s %s %s %s None)" % (
+                return clist(["(mkNO %s %s %s %s %s %s)" % (
                     DT_COQ[b["dt"]], cmatrix(b["rows"]), clist([ctext(l) for l in b["ns"]]),
                     clist(["(%s, %s)" % (cz(i), clist([cz(y) for y in ms])) for i, ms in b["fresh"]]),
-                    copt(b["title"], ctext)) for b in x])
+                    copt(b["title"], ctext), copt(link, ctext)) for b in x])
             return "(NexusRead %s %s %s %s)" % (lowtab(labs), st, ctoks(obs["tokens"]), cres(p, cobs))
     raise ValueError((kind, fmt))
 
@@ -675,6 +710,26 @@ def gen_write_case(rng, tier, fmt=None, dt=None):
         rows = gen_rows(rng, dt, ntax, nchar, mode, ragged=(rng.random() < 0.05))
         wkw = {"simple": True} if rng.random() < 0.3 else {}
     route = gen_route(rng, dt, rows)
+    if fmt == "nexus" and admissible and dt in ("dna", "rna", "protein", "standard") and rng.random() < 0.12 \
+            and len(set(len(c) for _, c in rows)) == 1:
+        # a matrix parsed from NEXUS text with multistate groups that have no predefined symbol
+        st = TABS[dt]["states"]
+        fund = [x["symbol"] for x in st if x["kind"] == "Fundamental" and x["symbol"] != "-"]
+        lines = []
+        labs = ["'%s'" % l.replace("'", "''") for l, _ in rows]
+        for (l, cells), lab in zip(rows, labs):
+            seg = ""
+            for i in cells:
+                if rng.random() < 0.25:
+                    a_, b_ = rng.sample(fund, 2)
+                    seg += rng.choice(["(%s%s)", "(%s,%s)", "{%s%s}"]) % (a_, b_)
+                else:
+                    seg += st[i]["symbol"]
+            lines.append("  %s  %s" % (lab, seg))
+        dk = {"dna": "DNA", "rna": "RNA", "protein": "PROTEIN", "standard": "STANDARD"}[dt]
+        text = "#NEXUS\nBEGIN DATA;\n DIMENSIONS NTAX=%d NCHAR=%d;\n FORMAT DATATYPE=%s GAP=- MISSING=?;\n MATRIX\n%s\n ;\nEND;\n" % (
+            len(rows), len(rows[0][1]), dk, "\n".join(lines))
+        route = {"r": "text", "dt": dt, "fmt": "nexus", "text": text, "rows": rows}
     case = {"kind": "write", "dt": dt, "fmt": fmt, "route": route, "wkw": wkw, "rkw": rkw}
     if fmt == "nexus" and dt in ("restriction", "infinite"):
         case["read_dt"] = dt      # reading back "as the same data type"
@@ -759,7 +814,7 @@ def nexus_text(rng, dt, rows, interleave=False, pages=1, multistate=False, match
             ms = [st[m]["symbol"] for m in s["members"]]
             if rng.random() < 0.5:
                 rng.shuffle(ms)
-            return "{" + "".join(ms) + "}"
+            return "{" + (",".join(ms) if rng.random() < 0.4 else "".join(ms)) + "}"
         sym = s["symbol"]
         return sym.lower() if lower and rng.random() < 0.5 else sym
     dtk = datatype_kw or {"dna": "DNA", "rna": "RNA", "nucleotide": "NUCLEOTIDE", "protein": "PROTEIN",
@@ -777,8 +832,13 @@ def nexus_text(rng, dt, rows, interleave=False, pages=1, multistate=False, match
     if simple:
         out += ["BEGIN DATA;", "  DIMENSIONS NTAX=%d NCHAR=%d;" % (ntax, nchar)]
     else:
-        out += ["BEGIN TAXA;", "  DIMENSIONS NTAX=%d;" % ntax, "  TAXLABELS " + " ".join(labs) + ";", "END;", "",
-                "BEGIN CHARACTERS;", "  DIMENSIONS NCHAR=%d;" % nchar]
+        titled = rng.random() < 0.35
+        out += ["BEGIN TAXA;"] + (["  TITLE the_taxa;"] if titled else []) + ["  DIMENSIONS NTAX=%d;" % ntax, "  TAXLABELS " + " ".join(labs) + ";", "END;", "",
+                "BEGIN CHARACTERS;"]
+        if titled:
+            out += ["  TITLE " + rng.choice(["chars1", "'my chars'"]) + ";",
+                    rng.choice(["  LINK TAXA = the_taxa;", "  link taxa = The_Taxa;", "  LINK CHARACTERS = zzz TAXA = the_taxa;"])]
+        out += ["  DIMENSIONS NCHAR=%d;" % nchar]
     out += ["  FORMAT %s;" % fmt, "  MATRIX"]
     cuts = [0, nchar]
     if interleave and nchar > 1:
@@ -934,6 +994,8 @@ def has_fresh(obs):
 
 
 def oracle(case, obs):
+    if case["kind"] == "dsread":
+        return None
     if case["kind"] == "read":
         intent = case.get("intent")
         if intent is None:
@@ -990,6 +1052,8 @@ def oracle(case, obs):
 
 
 def nontrivial(case, obs):
+    if case["kind"] == "dsread":
+        return isinstance(obs.get("parsed"), list)
     if case["kind"] == "write":
         return "rows" in obs and len(obs["rows"]) >= 1 and not isinstance(obs.get("text"), dict)
     p = obs.get("parsed")
@@ -999,6 +1063,9 @@ def nontrivial(case, obs):
 
 
 def count_case(ctx, case):
+    if case["kind"] == "dsread":
+        ctx.count("dsread:nexus:%d-namespaces" % len(case["ds"]["spaces"]))
+        return
     ctx.count("%s:%s" % (case["kind"], case["fmt"]))
     ctx.count("dt:%s" % case["dt"])
     if case["kind"] == "write":
@@ -1082,6 +1149,14 @@ def gen_cases(rng, tier):
                 _w, rk = rng.choice(list(all_phylip_variants()))
                 reads.append(read_case_from(c, rkw=rk))
     texts = [gen_text_read_case(rng, tier) for _ in range(n_text)]
+    dsreads = []
+    while len(dsreads) < (30 if tier == "quick" else 400):
+        pc = gen_pipeline(rng, tier)
+        if pc["p"] == "dataset" and pc["fmt"] == "nexus" and pc["wkw"].get("suppress_block_titles") is not True \
+                and any(sp["mats"] for sp in pc["spaces"]) \
+                and all(md["dt"] != "standard" or True for sp in pc["spaces"] for md in sp["mats"]):
+            dsreads.append({"kind": "dsread", "ds": pc, "block": rng.randrange(6)})
+    texts = texts + dsreads
     if tier == "thorough":
         ex = exhaustive_cases()
         cases = cases + ex
@@ -1113,7 +1188,7 @@ def run(tier, seed, replay=None):
         print("observed:", json.dumps(slim(obs), default=str)[:3000])
         print("oracle:", oracle(case, obs))
         return 0
-    ok = core.proof_stage(ctx, ["Props/C09.vo"])
+    ok = core.proof_stage(ctx, ["Props/C09.vo", "Model/C09Cases.vo"])
     if not ok:
         core.broken_proof(ctx, search)
     cases = gen_cases(ctx.rng, tier)
@@ -1121,7 +1196,7 @@ def run(tier, seed, replay=None):
         count_case(ctx, c)
     core.corr_stage(ctx, cases, observe, to_coq, HEADER, "case_ok", oracle=oracle, show_fn="case_show",
                     nontrivial=nontrivial, search=search, shard=70,
-                    sample_fn=lambda c, o: {"case": {k: v for k, v in c.items() if k != "route"}, "observed": str(slim(o))[:600]})
+                    sample_fn=lambda c, o: {"case": {k: v for k, v in c.items() if k not in ("route", "ds")}, "observed": str(slim(o))[:600]})
     run_pipelines(ctx, tier)
     return ctx.finish(
         level="proof",
@@ -1211,7 +1286,7 @@ def gen_pipeline(rng, tier):
         wkw = {}
         if fmt == "nexus":
             # the settings documented to keep titles when they are needed: default (None) and False ("always written")
-            sbt = rng.choice([None, None, False])
+            sbt = rng.choice([None, None, False, False, True])
             if sbt is not None:
                 wkw["suppress_block_titles"] = sbt
         return {"kind": "pipeline", "p": "dataset", "dt": "dna", "fmt": fmt, "spaces": spaces, "wkw": wkw}
@@ -1229,6 +1304,63 @@ def cont_content(m):
 
 def newick_of(tree):
     return tree.as_string("newick", suppress_rooting=True, suppress_edge_lengths=True).strip()
+
+
+def build_dataset(case):
+    import dendropy
+    ds = dendropy.DataSet()
+    for sp in case["spaces"]:
+        tns = ds.new_taxon_namespace(label=sp["label"])
+        for l in sp["labels"]:
+            tns.new_taxon(label=l)
+        for md in sp["mats"]:
+            cls = matrix_class(md["dt"])
+            m = cls(taxon_namespace=tns, label=md["label"])
+            for l, cells in md["rows"]:
+                m[tns.get_taxon(label=l)] = [m.default_state_alphabet[i] for i in cells]
+            ds.add_char_matrix(m)
+        if sp["trees"]:
+            nw = "(" + ",".join(l.replace(" ", "_") for l in sp["labels"]) + ");"
+            tl = dendropy.TreeList.get(data=nw, schema="newick", taxon_namespace=tns)
+            tl.label = sp["tree_label"]
+            ds.add_tree_list(tl)
+    return ds
+
+
+def observe_dsread(case):
+    """one CHARACTERS block of a written multi-namespace NEXUS document, as tokens, with the reader's
+    namespace table taken from the TAXA blocks' tokens"""
+    import dendropy
+    ds = build_dataset(case["ds"])
+    text = ds.as_string("nexus", **case["ds"]["wkw"])
+    blocks = split_blocks(tokenize(text))
+    tab, ntax = [], None
+    for name, b in blocks:
+        if name != "TAXA":
+            continue
+        tb = [t for t in b if t not in ("\n", "\r")]
+        up = [t.upper() for t in tb]
+        title = tb[up.index("TITLE") + 1] if "TITLE" in up else None
+        ntax = int(tb[up.index("NTAX") + 2])
+        labs = []
+        i = up.index("TAXLABELS") + 1
+        while tb[i] != ";":
+            labs.append(tb[i])
+            i += 1
+        tab.append([title, labs])
+    cbs = [b for n, b in blocks if n in ("CHARACTERS", "DATA")]
+    k = case["block"] % len(cbs)
+    obs = {"text": text[:4000], "tab": tab, "ntax0": ntax, "tokens": cbs[k]}
+    try:
+        d2 = dendropy.DataSet.get(data=text, schema="nexus")
+    except Exception as e:
+        obs["parsed"] = err_of(e)
+        return obs
+    m = d2.char_matrices[k]
+    rows, syms = content(m)
+    obs["parsed"] = [{"dt": m.data_type, "rows": rows, "syms": syms, "ns": [t.label for t in m.taxon_namespace],
+                      "fresh": [], "title": m.label}]
+    return obs
 
 
 def observe_pipeline(case):
@@ -1287,7 +1419,14 @@ def observe_pipeline(case):
             want_t = [{"ns": [t.label for t in tl.taxon_namespace], "leaves": [sorted(nd.taxon.label for nd in tr.leaf_node_iter()) for tr in tl]}
                       for tl in ds.tree_lists]
             obs = {"want_m": want_m, "want_t": want_t, "want_ns": [[t.label for t in tns] for tns in ds.taxon_namespaces]}
-            text = ds.as_string(case["fmt"], **case["wkw"])
+            with warnings.catch_warnings(record=True) as wlist:
+                warnings.simplefilter("always")
+                text = ds.as_string(case["fmt"], **case["wkw"])
+            obs["warned"] = any("block titles are suppressed" in str(w.message) for w in wlist)
+            warnings.simplefilter("ignore")
+            obs["n_title"] = sum(1 for l in text.split("\n") if l.strip().upper().startswith("TITLE "))
+            obs["n_link"] = sum(1 for l in text.split("\n") if l.strip().upper().startswith("LINK "))
+            obs["n_blocks"] = sum(1 for l in text.split("\n") if l.strip().upper().startswith("BEGIN "))
             obs["text"] = text[:6000]
             try:
                 d2 = dendropy.DataSet.get(data=text, schema=case["fmt"])
@@ -1376,7 +1515,30 @@ def oracle_pipeline(case, obs):
         b = obs["back"]
         nns = len(case["spaces"])
         tag = "%s%s" % (case["fmt"], ":suppress_block_titles=%s" % case["wkw"]["suppress_block_titles"] if "suppress_block_titles" in case["wkw"] else "")
+        if case["fmt"] == "nexus":
+            sbt = case["wkw"].get("suppress_block_titles")
+            # the option as documented (repaired in /repo 3376328c: a regression is a violation)
+            if sbt is False and (obs["n_title"] != obs["n_blocks"] or obs["n_link"] != obs["n_blocks"] - nns):
+                return ("suppress_block_titles=False is documented to always write TITLE: %d TITLE / %d LINK statements for %d blocks (%d TAXA)"
+                        % (obs["n_title"], obs["n_link"], obs["n_blocks"], nns), "nexus-block-titles:False-not-written")
+            if sbt is True and (obs["n_title"] or obs["n_link"]):
+                return ("suppress_block_titles=True wrote %d TITLE / %d LINK statements" % (obs["n_title"], obs["n_link"]),
+                        "nexus-block-titles:True-written")
+            if sbt is None and nns == 1 and (obs["n_title"] or obs["n_link"]):
+                return ("default suppress_block_titles wrote TITLE/LINK for a single namespace", "nexus-block-titles:default-single")
+            if sbt is True and nns > 1:
+                # documented: "this may make the file impossible to parse if there are multiple taxon namespaces";
+                # the writer must say so (it warns); the file is outside the property's quantifier
+                if not obs["warned"]:
+                    return ("suppress_block_titles=True with %d namespaces wrote an uninterpretable file without the documented warning" % nns,
+                            "nexus-block-titles:True-multi-no-warning")
+                return None
         if "err" in b:
+            labels = [sp["label"] for sp in case["spaces"] if sp["label"] is not None]
+            norm = [l.replace("_", " ").upper() for l in labels]
+            if case["fmt"] == "nexus" and len(set(norm)) != len(norm) and len(set(labels)) == len(labels):
+                return ("data set whose namespaces are labelled %s (equal up to case / underscore) is not read back: %s" % (labels, b.get("msg")),
+                        "dataset-nexus-unreadable:namespace-titles-equal-up-to-case")
             return ("data set with %d namespace(s) written as %s is not read back: %s" % (nns, tag, b.get("msg")),
                     "dataset-%s-unreadable:%s" % (tag, "multi" if nns > 1 else "single"))
         if b["m"] != obs["want_m"]:
@@ -1416,7 +1578,7 @@ def fixed_pipelines():
             out.append({"kind": "pipeline", "p": "fresh-multistate", "dt": dt, "fmt": fmt, "poly": True, "wkw": {}})
     sp = lambda i, labs: {"label": "ns%d" % i, "labels": labs, "trees": True, "tree_label": "t%d" % i,
                           "mats": [{"dt": "dna", "label": "m%d" % i, "rows": [[l, [k % 4, (k + 1) % 4]] for k, l in enumerate(labs)]}]}
-    for sbt in (None, False):
+    for sbt in (None, False, True):
         for nns in (1, 2, 3):
             spaces = [sp(i, ["a%d" % i, "b%d" % i, "c%d" % i][:2 + (i % 2)]) for i in range(nns)]
             wkw = {} if sbt is None else {"suppress_block_titles": sbt}
@@ -1432,6 +1594,9 @@ def fixed_pipelines():
                     "route": {"r": "from_dict", "dt": dt, "rows": r}})
         out.append({"kind": "pipeline", "p": "nexml", "dt": dt, "fmt": "nexml", "wkw": {"markup_as_sequences": False},
                     "route": {"r": "concat", "dt": dt, "parts": [[[l, c[:1]] for l, c in r], [[l, c[1:]] for l, c in r]]}})
+    for l1, l2 in (("ns", "NS"), ("taxa 1", "Taxa_1")):
+        out.append({"kind": "pipeline", "p": "dataset", "dt": "dna", "fmt": "nexus", "wkw": {}, "title_case": True,
+                    "spaces": [dict(sp(0, ["a0", "b0"]), label=l1), dict(sp(1, ["a1", "b1", "c1"]), label=l2)]})
     for lab in ("naïve", "a\"b", "x<y"):
         out.append({"kind": "pipeline", "p": "nexml-label", "dt": "dna", "fmt": "nexml", "label": lab, "wkw": {}})
     return out
